@@ -345,6 +345,14 @@ def case_map(kind, h, which):
             else:
                 out.append(m.apply_int(c))
             continue
+        if br(z3.ULT(c, 128)):
+            # ASCII: a single small term (the path condition usually decides this test)
+            bits = c.size()
+            if which == "lower":
+                out.append(z3.If(z3.And(z3.UGE(c, 65), z3.ULE(c, 90)), c + z3.BitVecVal(32, bits), c))
+            else:
+                out.append(z3.If(z3.And(z3.UGE(c, 97), z3.ULE(c, 122)), c - z3.BitVecVal(32, bits), c))
+            continue
         if m.multi and br(m.multi_set.cond(c)):
             for cp, img in m.multi.items():
                 if br(c == cp):
